@@ -356,6 +356,46 @@ def case_cdf_fn_float32(**p):
   return case
 
 
+def case_cdf_layer_float32(**p):
+  """the CDF layer with one input, one keypoint, one unit in float32 semantics (see case_cdf_fn_float32): output in [0, 1] for
+  every finite float32 input, keypoint location and non-negative input scaling"""
+  import tensorflow as tf
+  from tensorflow_lattice.python import cdf_layer as CL
+  case = Case(PROP, p['name'], {k: v for k, v in p.items() if k != 'name'})
+  case.encoded(CL.CDF.call)
+  q = dict(dim=1, nk=1, units=1, activation='relu6', reduction=p.get('reduction', 'mean'), scaling=p.get('scaling', 'learned_per_input'))
+  layer = _cdf_layer(q)
+  tr = Traced(lambda x: layer(x), [tf.TensorSpec([1, 1], tf.float32)], name='CDF.call[float32]')
+  sym.new_ctx()
+  F = z3.Float32()
+  x, loc, sc = z3.FP('x', F), z3.FP('loc', F), z3.FP('scale', F)
+  big = z3.FPVal(2.0 ** 100, F)
+  fin = []
+  for t in (x, loc, sc):
+    fin += [z3.Not(z3.fpIsNaN(t)), z3.fpLEQ(z3.fpAbs(t), big)]
+  fin.append(z3.fpGEQ(sc, z3.FPVal(0.0, F)))   # what the NonNeg constraint leaves
+  vv = {layer.kernel.ref(): np.full(tuple(layer.kernel.shape), loc, dtype=object)}
+  if q['scaling'] != 'fixed':
+    vv[layer.input_scaling.ref()] = np.full(tuple(layer.input_scaling.shape), sc, dtype=object)
+  (o,) = tr.sym_run(np.array([[x]], dtype=object), var_values=vv)
+  o0 = np.asarray(o, dtype=object).reshape(-1)[0]
+  case.meta.update(ops=tr.ops_seen, float_regime='IEEE float32, RNE; tensors of one element only')
+
+  def rp(m):
+    lay = _cdf_layer(q)
+    lay.kernel.assign(np.full(tuple(lay.kernel.shape), sym.fp_value(loc, m), dtype=np.float32))
+    if q['scaling'] != 'fixed':
+      lay.input_scaling.assign(np.full(tuple(lay.input_scaling.shape), sym.fp_value(sc, m), dtype=np.float32))
+    out = lay(tf.constant([[sym.fp_value(x, m)]], tf.float32)).numpy().astype(np.float64).reshape(-1)
+    return dict(reproduced=bool(np.any(~np.isfinite(out)) or np.any(out < 0) or np.any(out > 1)),
+                detail=dict(x=sym.fp_value(x, m), location=sym.fp_value(loc, m), scale=sym.fp_value(sc, m), out=out.tolist()))
+  case.solve('float32-output-in-unit-interval', z3.Or(z3.fpIsNaN(o0), z3.fpLT(o0, z3.FPVal(0.0, F)), z3.fpGT(o0, z3.FPVal(1.0, F))), assumptions=fin,
+             witness=dict(x=np.array([x], dtype=object), loc=np.array([loc], dtype=object), scale=np.array([sc], dtype=object)),
+             timeout=p.get('timeout', 240), sig=dict(query='float32-range'), inline_replay=rp, required=p.get('required', True))
+  case.solve('twin:float32-output-can-be-positive', z3.fpGT(o0, z3.FPVal(0.0, F)), assumptions=fin, expect='sat', kind='twin', timeout=60)
+  return case
+
+
 def replay(r):
   import tensorflow as tf
   rp = r['replay']
@@ -522,6 +562,8 @@ def cases(tier, seed):
   add('case_cdf_fn_float32', scaled=False)
   add('case_cdf_fn_float32', scaled=True, required=False, timeout=240)
   add('case_cdf_fn_float32', scaled=False, reduction='none')
+  add('case_cdf_layer_float32')
+  add('case_cdf_layer_float32', scaling='fixed')
   add('case_cdf_fn', dim=2, nk=3, units=1, activation='relu6', reduction='mean', exp_mult=-1.0, required=False, timeout=45)
   if tier == 'thorough':
     add('case_pwl_fn', nk=5, units=2, mono='increasing', clamp_min=True, clamp_max=True, per_unit_input=True, required=False, timeout=600)
